@@ -52,6 +52,7 @@ CONFIGS = {
     'tracepass': {'defs': ['NDEBUG'], 'vm': 'direct', 'units': ['Pass.cpp']},
     'tracejust': {'defs': ['NDEBUG'], 'vm': 'direct', 'units': ['Justifier.cpp']},
     'traceseg': {'defs': ['NDEBUG'], 'vm': 'direct', 'units': ['Segment.cpp']},
+    'tracelog': {'defs': ['NDEBUG'], 'vm': 'direct', 'units': ['gr_logging.cpp']},
     # ... and the two API units that take tags (C20 / C18 TAGNORM: a tracing-only branch must normalise too)
     'traceapi': {'defs': ['NDEBUG'], 'vm': 'direct', 'units': ['gr_face.cpp', 'gr_segment.cpp', 'Face.cpp']},
     'tele':     {'defs': ['GRAPHITE2_NTRACING', 'NDEBUG', 'GRAPHITE2_TELEMETRY'], 'vm': 'direct',
